@@ -186,6 +186,23 @@ def check_string(ctx, s, idx, rng, drive=False):
                         ctx.disagree(f'{api}/{kind}: expected {exp} got {got}' + (' (self)' if t == s else ''),
                                      {'api': api, 'kind': kind, 's': s, 'pattern': pat, 't': t, 'flags': list(fnames),
                                       'expected': exp, 'observed': got}, classify(s, t, fnames, exp, got))
+                if kind == 'escape' and s.isascii() and idx % 3 == 0:
+                    # escape() of the bytes twin, used as a bytes pattern under the same flags, accepts the same (ASCII) names
+                    try:
+                        bs = s.encode('ascii')
+                        besc = F.escape(bs) if mod is F else G.escape(bs, unix=not win)
+                        mb = mod.compile(besc, flags=flags)
+                        ts = [t for t in [s] + nbrs[:60] if t.isascii()]
+                        a = [m.match(t) for t in ts]
+                        b = [mb.match(t.encode('ascii')) for t in ts]
+                    except Exception as e:  # noqa: BLE001
+                        a, b, ts = None, f'raised {type(e).__name__}', []
+                    ctx.count('bytes_twin_checks')
+                    if a != b:
+                        i_ = 0 if isinstance(b, str) else next(i for i, (x, y) in enumerate(zip(a, b)) if x != y)
+                        ctx.disagree(f'{api}: escape() of the bytes twin behaves differently from the str escape',
+                                     {'api': api, 's': s, 'pattern': pat, 't': ts[i_] if ts else None, 'flags': list(fnames),
+                                      'str_answer': a[i_] if a else None, 'bytes_answer': b if isinstance(b, str) else b[i_]})
                 if kind == 'escape' and idx % 17 == 0:
                     # the one-shot entry point agrees
                     try:
